@@ -234,6 +234,10 @@ func (ft *fnTrans) instr(ins ssa.Instruction, h *Heap, reach string) {
 		case *types.Array:
 			ft.safe("idx", reach, and("(<= 0 "+ft.val(x.Index)+")", fmt.Sprintf("(< %s %d)", ft.val(x.Index), u.Len())), "array index in range", x.Pos())
 			ft.vals[x] = sel(ft.val(x.X), ft.val(x.Index))
+		case *types.Basic:
+			sv, iv := ft.val(x.X), ft.val(x.Index)
+			ft.safe("idx", reach, and("(<= 0 "+iv+")", "(< "+iv+" (slen "+sv+"))"), "string index in range", x.Pos())
+			ft.vals[x] = "(sat " + sv + " " + iv + ")"
 		default:
 			unsup("Index on %v", x.X.Type())
 		}
